@@ -185,7 +185,7 @@ def run_direct(ctx, legacy):
 
 # reverse maps the library decodes with (code -> name), each with the forward table it must mirror; the Lean theorems
 # `…_consistent` state the same relation over the regenerated tables — this is the search for the concrete failing code
-REVERSE_OF = [('DW_FORM_raw2name', 'ENUM_DW_FORM'), ('DW_OP_opcode2name', 'DW_OP_name2opcode')]
+REVERSE_OF = [('DW_FORM_raw2name', 'ENUM_DW_FORM'), ('DW_OP_opcode2name', 'DW_OP_name2opcode'), ('CFA_OPCODE_NAME_MAP', 'DC')]
 
 
 def run_reverse(ctx):
@@ -196,6 +196,9 @@ def run_reverse(ctx):
         if rev is None or fwd is None:
             ctx.out.violation('correspondence', 'direct-reverse', {'reverse': rid, 'forward': fid}, got='table missing')
             continue
+        if rid == 'CFA_OPCODE_NAME_MAP':
+            # the forward table is the whole constants module: only its DW_CFA_* names are opcode names
+            fwd = [(a, b) for a, b in fwd if a.startswith('DW_CFA_')]
         fset = set(fwd)
         by_code = {}
         for n, v in rev:
@@ -207,6 +210,13 @@ def run_reverse(ctx):
             ctx.out.count('direct:reverse')
             if (n, v) not in fset:
                 ctx.out.violation('property', 'direct-reverse', case, expect={'forward_names': [a for a, b in fwd if b == v]}, got=n)
+        # (c) decode direction: a code that has a registry name in the forward table is reported under such a name, not
+        #     under another constant that merely shares the value
+        for n, v in rev:
+            std = [a for a, b in fwd if b == v and a in reg and v in reg[a]]
+            if std and n not in std:
+                case = {'reverse': rid, 'forward': fid, 'code': v, 'reported': n}
+                ctx.out.violation('property', 'direct-reverse', case, expect={'standard_names': std}, got=n)
         # (b) every code of the forward table is reported under some name (a code found in a file must be named)
         for n, v in fwd:
             if v not in by_code:
